@@ -119,6 +119,46 @@ theorem cert_accept_sound {C : Crypto} {versions : Nat → Option Params} {cp : 
   obtain ⟨a, S, ha, hball, hq, _⟩ := verifyVotes_sound_bls (cd := { enableBls := yp.enableBls, seed := cseed, payload := ⟨h.hash, c.round, uc.roundIndex⟩, t := ct }) hb hv
   exact ⟨a, S, ha, hball, hq⟩
 
+/-- **acceptance_uses_stake_height_set.** For the entry points that resolve the look-back themselves (`VerifySeal`,
+`VerifyHeader(s)`): if the header at height N is accepted, then the chain has a header at N − SeedLookBack and a
+validator set committed at N − StakeLookBack (0 when the chain is shorter), and all of `accept_sound` holds with the seed
+of the FORMER and the validator set of the LATTER — the proposer and every counted voter are online chamber members of
+the set at the stake look-back height, whatever other sets the chain holds elsewhere. In certificate rounds the
+certificate seed is the one at N − ACoCHTFrequency and the certificate voters' set the one at N − 2·ACoCHTFrequency. -/
+theorem acceptance_uses_stake_height_set {C : Crypto} {versions : Nat → Option Params} {cp : Params} {cfg : LbCfg}
+    {chain : ChainView} {h : Header} (hb : cp.enableBls = true)
+    (hok : verifySealResolved Checks.current C versions cp cfg chain h = .ok) :
+    ∃ seedHdr lb, chain.header (back h.number cfg.seedLookBack) = some seedHdr ∧
+      chain.vals (back h.number cfg.stakeLookBack) = some lb ∧ Accepted C cp seedHdr lb h ∧
+      (isCertRound h.number = true → ∃ ch clb, chain.header (back h.number Gen.acochtFrequency) = some ch ∧
+        chain.vals (back h.number (2 * Gen.acochtFrequency)) = some clb ∧
+        verifySeal Checks.current C versions cp seedHdr lb (some ch) clb h = .ok) := by
+  unfold verifySealResolved at hok
+  simp only [lookBackHeights] at hok
+  split at hok
+  · rename_i seedHdr lb hs hl
+    refine ⟨seedHdr, lb, hs, hl, ?_, ?_⟩
+    · split at hok
+      · split at hok
+        · exact (accept_sound_seal hb hok).1
+        · cases hok
+      · exact (accept_sound_seal hb hok).1
+    · intro hc
+      rw [if_pos hc] at hok
+      split at hok
+      · rename_i ch clb h1 h2
+        exact ⟨ch, clb, h1, h2, hok⟩
+      · cases hok
+  · cases hok
+
+/-- the look-back heights are the protocol's distances (regenerated certificate period 32768): e.g. block 100 000 under
+SeedLookBack 8 / StakeLookBack 128 reads the validators at 99 872, the seed at 99 992; block 65 536 reads its certificate
+seed at 32 768 and its certificate validators at the genesis block -/
+theorem look_back_heights_examples :
+    lookBackHeights ⟨8, 128⟩ 100000 = ⟨99872, 99992, 67232, 34464⟩ ∧
+    lookBackHeights ⟨8, 128⟩ 65536 = ⟨65408, 65528, 32768, 0⟩ ∧ lookBackHeights ⟨8, 16⟩ 5 = ⟨0, 0, 0, 0⟩ := by
+  decide
+
 /-! ## Votes that contribute nothing -/
 
 /-- **dup_replay_contribute_nothing (duplicates).** A further vote of a member that has already been counted
@@ -290,9 +330,10 @@ configuration all theorems above are about —, the duplicate-signer check, the 
 sortition check, skip on failure, mark, `count += v.Votes`), the arguments of `VrfVerifySortition` / `VrfVerifyPriority`
 (seed, round index, step, threshold, look-back stake, chamber stake), the seat check `uint32(j) != subUsers` and `j <= 0`,
 the steps and kinds passed to `verifyVotes` (precommit/chamber/0.685, certificate/chamber/0.585), the `commonData` fields,
-the `OverThreshold` gate and its `>=` comparison, the aggregate check and its payload, the certificate-round switch. -/
+the `OverThreshold` gate and its `>=` comparison, the aggregate check and its payload, the certificate-round switch, and the
+look-back resolution (which look-back type is passed where, and the distance each type stands for). -/
 theorem source_shape_ok :
-    Gen.sourceFacts.all (·.2) = true ∧ Gen.sourceFacts.length = 18 ∧ Checks.current = ⟨true, true, true, true⟩ :=
+    Gen.sourceFacts.all (·.2) = true ∧ Gen.sourceFacts.length = 20 ∧ Checks.current = ⟨true, true, true, true⟩ :=
   ⟨by decide, by decide, current_eq⟩
 
 /-! ## The defects that were repaired: each missing check makes the property false (model witnesses;
@@ -361,6 +402,20 @@ example : verifySide Checks.current wC wNoV wCp wSeed wLb none ⟨[], 0⟩
 /-- … as is the one whose second signature was made for another block hash (test) -/
 example : verifySide Checks.current wC wNoV wCp wSeed wLb none ⟨[], 0⟩
     (wHeader (wCons 2000) [wVote 0 1 11, wVote 1 2 12] [(1, wPl), (2, ⟨8, 100, 1⟩)]) = .err .sigmismatch := by
+  decide
+
+/-- `acceptance_uses_stake_height_set` is not vacuous, and the set matters: a chain holding the world's set at the stake
+look-back height (100 − 16 = 84) and ANOTHER set (members 1 and 2 offline) at the seed height (92) accepts the header
+voted by members 1 and 2; with the two sets swapped the same header is rejected (test) -/
+example :
+    let off : LookBack := ⟨[⟨1, 9000, 0, 1, false, some 1, some 1⟩, ⟨2, 8000, 0, 1, false, some 2, some 2⟩,
+                            ⟨3, 7000, 0, 1, true, some 3, some 3⟩], 7000⟩
+    let hdr := wHeader (wCons 2000) [wVote 0 1 11, wVote 1 2 12] [(1, wPl), (2, wPl)]
+    let good : ChainView := { header := fun n => if n = 92 then some wSeed else if n = 84 then some ⟨some (5, 4000), 1⟩ else none,
+                              vals := fun n => if n = 92 then some off else if n = 84 then some wLb else none }
+    let swapped : ChainView := { good with vals := fun n => if n = 92 then some wLb else if n = 84 then some off else none }
+    verifySealResolved Checks.current wC wNoV wCp ⟨8, 16⟩ good hdr = .ok ∧
+    verifySealResolved Checks.current wC wNoV wCp ⟨8, 16⟩ swapped hdr = .err .proposer := by
   decide
 
 /-- hypotheses of `dup_replay_contribute_nothing` / `wrong_step_or_block_rejected` / `weight_inflation_rejected` are
